@@ -185,6 +185,53 @@ def o3(h):
                lambda rng: [rng.normal(size=1), rng.normal(size=1), abs(rng.normal()) + 0.05], 1.0, 'sReg', 1, cap=120)
 
 
+def _pinned_gradient(h, name, gfun, example, sampler, assumes, point_desc):
+    """gradient of a smoothed function at a PINNED argument (all other inputs symbolic) is exactly 0 — the pinned point is a
+    constant of the jaxpr, so everything computed from it alone is folded by the real primitives; if that folding produces a
+    non-finite number the encoder refuses (the value is non-finite for EVERY value of the symbolic inputs): the refusal is then
+    confirmed by running the real function at witness values and reported as a violation (definedness of the derivative)."""
+    import math
+    try:
+        c = Case(h, gfun, example, sampler=sampler, label=name)
+        c.prove(name, lambda i, o: (assumes(i), [Eq(x, 0.0, name='derivative_is_zero_at_%s[%d]' % (point_desc, k))
+                                                 for k, x in enumerate(onp.asarray(o, dtype=object).reshape(-1))]))
+    except Exception as e:    # noqa: BLE001 (CrossHair is not involved here)
+        if 'non-finite' not in str(e) and 'validation' not in str(e):
+            raise
+        import numpy.random as npr
+        rng = npr.default_rng(0)
+        bad = None
+        for _ in range(6):
+            args = sampler(rng)
+            out = onp.asarray(gfun(*args), dtype=float).reshape(-1)
+            if not all(math.isfinite(v) for v in out):
+                bad = (args, out)
+                break
+        if bad is None:
+            raise
+        h.violation('%s/derivative_is_finite_at_%s' % (name, point_desc), dict(inputs=[float(a) for a in bad[0]], derivative=[repr(float(v)) for v in bad[1]]),
+                    'constant folding of the pinned argument gives a non-finite intermediate (%s); the real derivative at the witness is %s'
+                    % (str(e)[:120], bad[1]))
+
+
+@obligation(P, 'O8.derivatives_defined_at_symmetry_points', cap=240)
+def o8(h):
+    """the derivative exists (and is 0 by symmetry) exactly AT the points where the smoothing matters most: zero slip for the
+    friction potential (every mu, sReg), x = 0 for the smoothed absolute value (every eps) — a 0/0 leaking out of an unselected
+    branch through a zero cotangent is invisible to every query that assumes symbolic denominators non-zero"""
+    SF, Friction, _, _ = _mods()
+    h.encoded(Friction.compute_friction_energy_from_perp_slip, SF.abs, SF.min_base)
+    h.bounds('pinned argument exactly 0 (1-D and 2-D slip), mu >= 0, sReg > 0, eps > 0 symbolic')
+    h.assume_note('derivative jaxpr as produced by jax.grad of the real function (custom JVP rules of safe_sqrt included)')
+    pos = lambda rng: [abs(rng.normal()) + 0.05, abs(rng.normal()) + 0.05]
+    for dim in (1, 2):
+        g = (lambda d: lambda mu, sReg: jax.grad(lambda s: Friction.compute_friction_energy_from_perp_slip(s, Friction.Params(mu, sReg)))(jnp.zeros(d)))(dim)
+        _pinned_gradient(h, 'friction_%dd' % dim, g, dict(mu=0.4, sReg=0.1), pos,
+                         lambda i: [v_le(0.0, s0(i['mu'])), v_lt(0.0, s0(i['sReg']))], 'zero_slip')
+    ga = lambda eps: jax.grad(lambda x: SF.abs(x, eps))(0.0)
+    _pinned_gradient(h, 'abs', ga, dict(eps=0.5), lambda rng: [abs(rng.normal()) + 0.05], lambda i: [v_lt(0.0, s0(i['eps']))], 'zero')
+
+
 @obligation(P, 'O4.zmax_ramp_segment', cap=240)
 def o4(h):
     """zmax >= max(x,0), exact outside (-eps,eps); smooth_linear monotone and within l/2 of the identity"""
